@@ -99,6 +99,21 @@ def startOp (_s : St) (op : String) : Option PC :=
   | ["close"] => some .c0
   | _ => none
 
+def kidx : Kind → Nat
+  | .p0 => 0
+  | .p1 => 1
+  | .c0 => 2
+  | .c1 => 3
+  | .r0 => 4
+  | .r1 => 5
+def allKinds : List Kind := [.p0, .p1, .c0, .c1, .r0, .r1]
+/-- the same state with the counter function re-tabulated (see `compact_eq`) -/
+def compact (s : St) : St := { s with cnt := let t := allKinds.map s.cnt; fun k => tblGet t (kidx k) }
+theorem compact_eq (s : St) : compact s = s := by
+  have : (let t := allKinds.map s.cnt; fun k => tblGet t (kidx k)) = s.cnt := by
+    funext k; cases k <;> rfl
+  simp only [compact, this]
+
 def ops (comp : String) : Ops St PC where
   gstep := gstep
   spawn := spawn
@@ -106,6 +121,7 @@ def ops (comp : String) : Ops St PC where
   startOp := startOp
   openGate := fun s => { s with gate := true }
   summary := fun s => s!"late={s.late}"
+  compact := compact
 
 def exec0 (cap : Nat) : Exec St PC :=
   { sh := init cap true, ths := [{ name := "R", pc := some .r0, internal := true }] }
